@@ -396,3 +396,70 @@ def mk_validate(ctx):
             errs.append('the error does not name the missing child')
     ctx.check(not errs, 'validate_op', body, 'Err(MissingChild(c)) exactly when c is not in dag', errs[0] if errs else '',
               details={'child in dag -> (Err may, must)': {str(k): v for k, v in res.items()}})
+
+
+@rule('ID-MARKER', {
+    'C12': 'the gate and the identifier must agree on the dot: Op::dot() reads the marker of the last path element, so every identifier '
+           'between() builds must end with the caller\'s marker',
+    'C14': 'identifiers tagged with distinct dots never collide only if the marker really ends the path',
+}, floor=2)
+def id_marker(ctx):
+    """Identifier::between: the last path element pushed before the walk ends carries the caller's marker (prefix copies are
+    always followed by another iteration), the one-bound case builds [(.., marker)], the swapped recursion passes the marker on;
+    Identifier::value() returns the marker of the last element."""
+    facts = ctx.facts
+    body = ctx.inherent(IDENT, 'between')
+    it = interp(facts, body)
+    rc = Reach(facts, body, Evaluator(facts))
+    marker_pushes, other_pushes = [], []
+    for bb, c in it.calls.items():
+        if call_name(c.term) == 'push' and len(c.args) == 2:
+            v = drop_lv(c.args[1].val)
+            if v[0] == 'tuple' and len(v[1]) == 2:
+                (marker_pushes if versionless(v[1][1]) == ('param', 3) else other_pushes).append(bb)
+    errs = []
+    if not marker_pushes:
+        errs.append('no path element is ever tagged with the caller\'s marker')
+    else:
+        heads = sorted(set(h for (_, h) in it.back_edges))
+        walk = None
+        for h in heads:
+            lp = innermost_loop(it, h)
+            if lp and any(call_name(it.calls[b].term) == 'next' for b in lp[1] if b in it.calls):
+                walk = lp
+        if walk is None:
+            errs.append('the path walk is not a loop')
+        else:
+            head, blocks = walk
+            rets = set(rc.return_blocks())
+            if not rc.must_pass(marker_pushes, start=head):
+                p = rc.escape_path(marker_pushes, start=head)
+                errs.append('the path walk can end without appending (.., marker): bb%s' % '->bb'.join(map(str, p or [])))
+            for b in other_pushes:
+                after = rc._reach(b, set(marker_pushes) | {head})
+                if after & rets:
+                    errs.append('a copied prefix element can be the last element of the new identifier (line %d)' % block_line(it, b))
+    # one-bound case and recursion
+    one_ok = False
+    for w in it.writes.values():
+        v = drop_lv(w.val)
+        if v[0] == 'array' and v[1] and v[1][0][0] == 'tuple' and len(v[1][0][1]) == 2 and versionless(v[1][0][1][1]) == ('param', 3):
+            one_ok = True
+    for bb, c in it.calls.items():
+        if call_name(c.term) in ('from_elem', 'into_vec', 'from') and c.args:
+            for st in subterms(drop_lv(c.args[0].val)):
+                if st[0] == 'tuple' and len(st[1]) == 2 and versionless(st[1][1]) == ('param', 3):
+                    one_ok = True
+    if not one_ok:
+        errs.append('with a single bound the new identifier is not [(position, marker)]')
+    for bb, c in it.calls.items():
+        if cinfo(c.cid)['uid'] == body.uid and len(c.args) == 3 and versionless(c.args[2].val) != ('param', 3):
+            errs.append('the swapped recursive call does not pass the marker on')
+    ctx.check(not errs, 'between', body, 'every built identifier ends with the caller\'s marker', errs[0] if errs else '')
+    vb = ctx.inherent(IDENT, 'value')
+    r = drop_lv(inline_option_maps(facts, interp(facts, vb).ret))
+    ok = False
+    for st in subterms(r):
+        if st[0] == 'field' and st[2] == '1' and any(is_call(s2, 'last') and param_path(s2[2][0]) == (1, ('0',)) for s2 in subterms(st[1])):
+            ok = True
+    ctx.check(ok, 'value', vb, 'marker of the last path element', 'Identifier::value() is %s, expected the marker of the last path element' % fmt(r, 5))
